@@ -2,6 +2,8 @@ package main
 
 import (
 	"fmt"
+	"os"
+	"os/exec"
 	"strings"
 	"sync/atomic"
 
@@ -380,6 +382,27 @@ func init() {
 		finishGraphStats(r, gs)
 		r.Set("rule", graphRule+"; on every executed string: no panic, exactly one of object and error; at every new state the same string through a nil receiver; after every failed decode all observers on the receiver left behind (every abort point of every abort kind reached by the graphs) — no panic, and error/error/0 while a metric still holds its unknown value; fixed 1 MiB inputs; all observers on nil receivers and fresh constructor results; every exported field of decoded objects reset to its unknown/invalid value in turn")
 		setExhaustiveUnlessCapped(r)
+		r.Phase("Decode as the entry function of a goroutine", func() {
+			// round 7, C12-A-r7: an error context that walks two frames up the stack and panics when
+			// there are none.  A panic there cannot be recovered: the call runs in a child process.
+			exe, err := os.Executable()
+			if err != nil {
+				return
+			}
+			out, err := exec.Command(exe, "fresh", "goentry").CombinedOutput()
+			r.Add("evaluations", 70)
+			if err != nil {
+				tail := string(out)
+				if len(tail) > 2500 {
+					tail = tail[:2500]
+				}
+				if strings.Contains(tail, "github.com/goark/go-cvss/") {
+					r.Violate(ev.Violation{Kind: "decode-panics", Case: map[string]any{"how": "go d.Decode(s): Decode as the entry function of a goroutine, for every decoder (constructor results and nil receivers) and seven inputs; run in a child process (cvssmc fresh goentry)"}, Observed: tail, Expected: "every call returns", GoTest: "go metric.NewBase().Decode(\"CVSS:3.1/AV:N/AC:L/PR:N/UI:N/S:U/C:H/I:H/A:Q\"); time.Sleep(time.Second)"})
+				} else {
+					r.Infra("goentry child failed: " + err.Error() + ": " + tail)
+				}
+			}
+		})
 		graphAssumptions(r)
 	})
 }
